@@ -58,6 +58,7 @@ class Check:
         self.notes = []
         self.crosscheck = []
         self.level_category = "proof"
+        self.explanation = ""
         self.crashed = None
 
     # ---- registration ------------------------------------------------------
@@ -255,6 +256,7 @@ class Check:
                 "bounded": self.bounded,
                 "undecided_clauses": self.undecided_clauses,
                 "engine_crosscheck": self.crosscheck,
+                "explanation": self.explanation or "see MANIFEST.json level_claimed / level_note for this property",
                 "obligation_list": [{"id": o["id"], "kind": o["kind"], "backend": o["backend"],
                                      "verdict": o["verdict"], "s": o["seconds"]} for o in self.obls],
                 "notes": self.notes,
